@@ -118,6 +118,9 @@ type raceResult struct {
 // process starts when it gets its slot, so a loaded machine does not turn into timeouts.
 var solverSem = make(chan struct{}, 16)
 
+// leanRace (quick tier): only the variants that decide most goals are started.
+var leanRace bool
+
 // race runs the applicable variants concurrently and returns the first conclusive result.
 func race(script, file string, timeoutMs int, cover bool, sliced ...string) (string, string, float64, []string) {
 	qf := !strings.Contains(script, "(forall ") && !strings.Contains(script, "(exists ")
@@ -176,6 +179,9 @@ func race(script, file string, timeoutMs int, cover bool, sliced ...string) (str
 		f := fmt.Sprintf("%s.hop%d.smt2", file, k+1)
 		os.WriteFile(f, []byte(sc), 0o644)
 		for _, vi := range []int{0, 1} {
+			if leanRace && ((k < 2) || (k >= 3 && vi == 0)) {
+				continue // quick tier: slice3 with both modes, pre-instantiated scripts with e-matching
+			}
 			label := fmt.Sprintf("slice%d", k+1)
 			if k == 3 {
 				label = "inst"
